@@ -12,6 +12,7 @@ import (
 	"github.com/hashicorp/hcl/v2"
 	"github.com/hashicorp/hcl/v2/hclsyntax"
 	"github.com/zclconf/go-cty/cty"
+	"github.com/zclconf/go-cty/cty/function"
 
 	"verifharness/internal/core"
 	"verifharness/internal/gen"
@@ -115,7 +116,29 @@ func c20Workspace(src string) *core.Workspace {
 		Blocks: map[string]*schema.BlockSchema{"blk": {Body: &schema.BodySchema{Attributes: map[string]*schema.AttributeSchema{
 			"y": {IsOptional: true, Constraint: schema.AnyExpression{OfType: cty.String}}}}}},
 	}
-	return &core.Workspace{Paths: map[string]*core.PathSpec{"/sig": {Schema: root, Files: map[string]string{"main.tf": src}, Functions: gen.Functions()}}, Order: []string{"/sig"}}
+	// two paths with the same text and the same function NAMES but different signatures:
+	// whatever is remembered about a function must not travel between paths
+	return &core.Workspace{Paths: map[string]*core.PathSpec{
+		"/sig":  {Schema: root, Files: map[string]string{"main.tf": src}, Functions: gen.Functions()},
+		"/sig2": {Schema: root, Files: map[string]string{"main.tf": src}, Functions: c20OtherFunctions()},
+	}, Order: []string{"/sig", "/sig2"}}
+}
+
+// c20OtherFunctions declares the functions of gen.Functions() with other
+// parameter lists (names, arity, variadic or not).
+func c20OtherFunctions() map[string]schema.FunctionSignature {
+	return map[string]schema.FunctionSignature{
+		"f0":     {Description: "other f0 takes one", ReturnType: cty.String, Params: []function.Parameter{{Name: "only", Type: cty.String}}},
+		"upper":  {Description: "other upper", ReturnType: cty.String, Params: []function.Parameter{{Name: "text", Type: cty.String}, {Name: "locale", Type: cty.String}}},
+		"length": {Description: "other length", ReturnType: cty.Number, VarParam: &function.Parameter{Name: "values", Type: cty.DynamicPseudoType}},
+		"f2":     {Description: "other f2", ReturnType: cty.String, Params: []function.Parameter{{Name: "x", Type: cty.String}}},
+		"f3":     {Description: "other f3", ReturnType: cty.Bool},
+		"join":   {Description: "other join", ReturnType: cty.String, Params: []function.Parameter{{Name: "glue", Type: cty.String}, {Name: "first", Type: cty.List(cty.String)}}, VarParam: &function.Parameter{Name: "rest", Type: cty.List(cty.String)}},
+		"v0":     {Description: "other v0", ReturnType: cty.Number, Params: []function.Parameter{{Name: "n", Type: cty.Number}}},
+		"any":    {Description: "other any", ReturnType: cty.DynamicPseudoType, Params: []function.Parameter{{Name: "one", Type: cty.DynamicPseudoType}}, VarParam: &function.Parameter{Name: "more", Type: cty.DynamicPseudoType}},
+		"ns::fn": {Description: "other namespaced", ReturnType: cty.String, Params: []function.Parameter{{Name: "p", Type: cty.String}, {Name: "q", Type: cty.String}}},
+		"nope":   {Description: "known only here", ReturnType: cty.String, Params: []function.Parameter{{Name: "z", Type: cty.String}}},
+	}
 }
 
 func (p c20) NumUnits(tier string, seed int64) int {
@@ -191,16 +214,16 @@ func paramNames(f schema.FunctionSignature) []string {
 func (p c20) RunUnit(idx int, tier string, seed int64, focus map[string]string, rep *runner.Reporter) {
 	_, nExpr := c20Params(tier)
 	src := c20Source(seed*7919+int64(idx), nExpr)
-	p.checkFile(idx, seed*7919+int64(idx), src, true, -1, rep)
+	p.checkFile(idx, seed*7919+int64(idx), src, true, -1, "", rep)
 	// half-typed calls: byte prefixes (soundness only)
 	rnd := unitRand(seed, "C20", idx)
 	for i := 0; i < 12; i++ {
 		cut := rnd.Intn(len(src))
-		p.checkFile(idx, seed*7919+int64(idx), src[:cut], false, -1, rep)
+		p.checkFile(idx, seed*7919+int64(idx), src[:cut], false, -1, "", rep)
 	}
 }
 
-func (p c20) checkFile(unit int, fseed int64, src string, exact bool, only int, rep *runner.Reporter) {
+func (p c20) checkFile(unit int, fseed int64, src string, exact bool, only int, onlyPath string, rep *runner.Reporter) {
 	ws := c20Workspace(src)
 	env := ws.Build(false)
 	pc := env.PathCtx["/sig"]
@@ -219,32 +242,32 @@ func (p c20) checkFile(unit int, fseed int64, src string, exact bool, only int, 
 		exact = false
 	}
 	calls := callsOf(body, []byte(src))
-	funcs := pc.Functions
 	tab := env.Tables["/sig"]["main.tf"]
 	offs := tab.Offsets()
 	if only >= 0 {
 		offs = []int{only}
 	}
-	for _, off := range offs {
+	one := func(path string, off int) {
+		funcs := env.PathCtx[path].Functions
 		pos, ok := tab.At(off)
 		if !ok {
-			continue
+			return
 		}
 		rep.Mark(unit, off, -1, -1)
-		q := core.Query{Kind: core.QSignature, Path: "/sig", File: "main.tf", Pos: pos}
+		q := core.Query{Kind: core.QSignature, Path: path, File: "main.tf", Pos: pos}
 		r := env.Run(q)
 		rep.Eval(1)
 		if r.Panic != nil {
-			continue
+			return
 		}
 		sig, _ := r.Value.(*lang.FunctionSignature)
-		unitJSON := mustJSON(map[string]interface{}{"file_seed": fseed, "source": src, "byte": off, "exact": exact})
+		unitJSON := mustJSON(map[string]interface{}{"file_seed": fseed, "source": src, "byte": off, "exact": exact, "path": path})
 		viol := func(sg, what, exp string) {
 			obs := "no signature"
 			if sig != nil {
 				obs = fmt.Sprintf("%s active=%d params=%d", sig.Name, sig.ActiveParameter, len(sig.Parameters))
 			}
-			rep.Violation(&runner.Witness{Sig: sg, What: what, Unit: unitJSON, Files: map[string]string{"/sig/main.tf": src}, Query: q.String(), Expected: exp, Observed: obs})
+			rep.Violation(&runner.Witness{Sig: sg, What: what, Unit: unitJSON, Files: map[string]string{path + "/main.tf": src}, Query: q.String(), Expected: exp, Observed: obs})
 		}
 		// ---- soundness (all files)
 		if sig != nil {
@@ -255,7 +278,7 @@ func (p c20) checkFile(unit int, fseed int64, src string, exact bool, only int, 
 			fs, known := funcs[fname]
 			if !known {
 				viol("SIG unknown-function", fmt.Sprintf("signature %q names a function that is not known", sig.Name), "")
-				continue
+				return
 			}
 			want := paramNames(fs)
 			var got []string
@@ -280,7 +303,7 @@ func (p c20) checkFile(unit int, fseed int64, src string, exact bool, only int, 
 			}
 		}
 		if !exact {
-			continue
+			return
 		}
 		// ---- exactness (well-formed files): M-sig
 		var inner *callInfo
@@ -311,7 +334,7 @@ func (p c20) checkFile(unit int, fseed int64, src string, exact bool, only int, 
 			if sig != nil {
 				viol("SIG unexpected cursor="+cursorClass, "a signature is returned although the cursor is not inside the parentheses of a known call", "no signature")
 			}
-			continue
+			return
 		}
 		fs := funcs[inner.node.Name]
 		params := paramNames(fs)
@@ -322,7 +345,7 @@ func (p c20) checkFile(unit int, fseed int64, src string, exact bool, only int, 
 			}
 		}
 		slot := fmt.Sprintf("slot%d", commasLeft)
-		key := fmt.Sprintf("%s/%d+%t|%s|depth%d", inner.node.Name, len(fs.Params), fs.VarParam != nil, slot, inner.depth)
+		key := fmt.Sprintf("%s|%s/%d+%t|%s|depth%d", path, inner.node.Name, len(fs.Params), fs.VarParam != nil, slot, inner.depth)
 		if len(params) == 0 {
 			if sig == nil {
 				viol("SIG missing paramless", fmt.Sprintf("no signature on the call of parameterless %s", inner.node.Name), inner.node.Name)
@@ -330,7 +353,7 @@ func (p c20) checkFile(unit int, fseed int64, src string, exact bool, only int, 
 				viol("SIG wrong-call paramless", fmt.Sprintf("signature of %s, expected %s", sig.Name, inner.node.Name), inner.node.Name)
 			}
 			rep.NonTrivial(key + "|" + fmt.Sprint(onParamless))
-			continue
+			return
 		}
 		want := commasLeft
 		surplus := false
@@ -353,22 +376,31 @@ func (p c20) checkFile(unit int, fseed int64, src string, exact bool, only int, 
 			if sig != nil && strings.HasPrefix(sig.Name, inner.node.Name+"(") && !sameNameOuter {
 				viol("SIG surplus-arguments", fmt.Sprintf("signature of %s returned although %d arguments precede the cursor and it takes %d", inner.node.Name, commasLeft, len(params)), "no signature")
 			}
-			continue
+			return
 		}
 		rep.NonTrivial(key)
 		if sig == nil {
 			viol("SIG missing slot="+slotClass(commasLeft, inner, off), fmt.Sprintf("no signature although the cursor is inside the parentheses of %s (argument slot %d)", inner.node.Name, commasLeft), fmt.Sprintf("%s active=%d", inner.node.Name, want))
-			continue
+			return
 		}
 		if !strings.HasPrefix(sig.Name, inner.node.Name+"(") {
 			viol("SIG not-innermost", fmt.Sprintf("signature of %s, but the innermost enclosing known call is %s", sig.Name, inner.node.Name), inner.node.Name)
-			continue
+			return
 		}
 		if int(sig.ActiveParameter) != want {
 			viol("SIG wrong-active-parameter slot="+slotClass(commasLeft, inner, off), fmt.Sprintf("%s: active parameter %d, but %d commas precede the cursor (expected %d)", inner.node.Name, sig.ActiveParameter, commasLeft, want), fmt.Sprintf("active=%d", want))
 		}
 		if rep.NumSamples() < 5 && inner.depth > 0 {
 			rep.Sample(map[string]interface{}{"cursor_byte": off, "line": strings.Split(src, "\n")[pos.Line-1], "column": pos.Column, "innermost_call": inner.node.Name, "commas_left": commasLeft, "expected_active": want, "got": sig.Name, "got_active": sig.ActiveParameter})
+		}
+	}
+	for _, off := range offs {
+		// the paths alternate cursor by cursor
+		for _, path := range ws.Order {
+			if onlyPath != "" && path != onlyPath {
+				continue
+			}
+			one(path, off)
 		}
 	}
 }
@@ -405,11 +437,12 @@ func (p c20) Replay(w *runner.Witness, rep *runner.Reporter) error {
 		Src   string `json:"source"`
 		Byte  int    `json:"byte"`
 		Exact bool   `json:"exact"`
+		Path  string `json:"path"`
 	}
 	if err := json.Unmarshal(w.Unit, &u); err != nil {
 		return err
 	}
-	p.checkFile(0, u.Seed, u.Src, u.Exact, u.Byte, rep)
+	p.checkFile(0, u.Seed, u.Src, u.Exact, u.Byte, u.Path, rep)
 	return nil
 }
 
